@@ -418,4 +418,210 @@ theorem remove_calls_loop_graph (p0 : Program) (big fuel : Nat) : ∀ (n : Nat) 
           simp only [ht] at hn' ⊢
           exact nodesOfKeep_subset _ ti p big fuel _ _ _ _ n' hn'
 
+/-! ### the loop, exactly: an iteration of the calls pass up to its fixed point -/
+
+
+/-- `s'` is `s` after one calls pass that had something to delete, and its graph is
+EXACTLY the graph of the calls the pass keeps — resolved in `s`, every kept node with
+the fqid / callable / resolved outputs / retained references / resolved inputs it has
+in `s` — minus the cascaded input keys. -/
+def PassExact (big fuel : Nat) (s s' : TypeInfo × Program) : Prop :=
+  StructOK s.2 = true ∧ (unusedCallPlan s.2).1 ≠ [] ∧ s' = callsPass s ∧
+  deepGraphAt big fuel s'.1 s'.2
+    = (unusedCallPlan s.2).2.foldl (fun g xq => g.map (remNodeIn xq.1 xq.2))
+        (deepGraphKeepAt (keepOf (unusedCallPlan s.2).1) big fuel s.1 s.2)
+
+/-- **the remove-unused-calls loop, exact**: with fuel `n` the loop is `m ≤ n` calls
+passes; every one of them had something to delete and satisfies the exact pass
+equation (`PassExact`: deleted = the `unusedCallPlan` of that iteration, everything
+else unchanged); and unless the fuel ran out (`m = n`) the result is a fixed point —
+no call of it is unused.  Neither the identity (on a program with an unused call)
+nor a loop that deletes more than the plans satisfies this. -/
+theorem remove_calls_loop_exact (p0 : Program) (big fuel : Nat) : ∀ (n : Nat) (p : Program) (ti : TypeInfo),
+    StructOK p = true →
+    ∃ m, m ≤ n ∧ removeLoop p0 true [] n p = (callsIter m (ti, p)).2
+      ∧ (∀ k, k < m → PassExact big fuel (callsIter k (ti, p)) (callsIter (k + 1) (ti, p)))
+      ∧ (m < n → (unusedCallPlan (callsIter m (ti, p)).2).1 = []) := by
+  intro n
+  induction n with
+  | zero =>
+    intro p ti _
+    exact ⟨0, Nat.le_refl _, rfl, fun k hk => absurd hk (Nat.not_lt_zero _), fun h => absurd h (Nat.lt_irrefl _)⟩
+  | succ n ih =>
+    intro p ti hs
+    simp only [removeLoop, removeStep, removeUnusedCallsPass, List.isEmpty_iff]
+    cases hplan : unusedCallPlan p with
+    | mk rem ins =>
+      by_cases hrem : rem = []
+      · simp only [hrem, if_true, Bool.or_false, Bool.false_eq_true, if_false]
+        refine ⟨0, Nat.zero_le _, rfl, fun k hk => absurd hk (Nat.not_lt_zero _), fun _ => ?_⟩
+        show (unusedCallPlan p).1 = []
+        rw [hplan]; exact hrem
+      · simp only [hrem, if_false, Bool.or_false, if_true]
+        have hpass := calls_pass_graph p ti hs big fuel
+        have hcp : callsPass (ti, p) = (ti.removeInputs ins, removeInputs ins (applyCallRemovals rem p)) := by
+          simp only [callsPass, hplan]
+        obtain ⟨m, hmn, heq, hsteps, hfix⟩ := ih (removeInputs ins (applyCallRemovals rem p)) (ti.removeInputs ins)
+          (pass_structOK p hs rem ins)
+        refine ⟨m + 1, Nat.succ_le_succ hmn, ?_, ?_, ?_⟩
+        · show _ = (callsIter m (callsPass (ti, p))).2
+          rw [hcp]; exact heq
+        · intro k hk
+          cases k with
+          | zero =>
+            refine ⟨hs, ?_, rfl, ?_⟩
+            · show (unusedCallPlan p).1 ≠ []
+              rw [hplan]; exact hrem
+            · show deepGraphAt big fuel (callsPass (ti, p)).1 (callsPass (ti, p)).2 = _
+              exact hpass
+          | succ k =>
+            show PassExact big fuel (callsIter k (callsPass (ti, p))) (callsIter (k + 1) (callsPass (ti, p)))
+            rw [hcp]
+            exact hsteps k (Nat.lt_of_succ_lt_succ hk)
+        · intro hlt
+          show (unusedCallPlan (callsIter m (callsPass (ti, p))).2).1 = []
+          rw [hcp]
+          exact hfix (Nat.lt_of_succ_lt_succ hlt)
+
+/-! ### the loop as ONE equation about the original graph -/
+
+
+theorem keepOf_eq_keepN (rem : List CallRemoval) :
+    keepOf rem = fun c i => keepN rem c.name c.isPipe i := by
+  funext c i; rfl
+
+/-- `calls_pass_graph` for a restricted graph -/
+theorem calls_pass_graphK (p : Program) (ti : TypeInfo) (hs : StructOK p = true) (big fuel : Nat)
+    (κ : String → Bool → String → Bool) :
+    deepGraphKeepAt (fun c i => κ c.name c.isPipe i) big fuel (ti.removeInputs (unusedCallPlan p).2)
+        (removeInputs (unusedCallPlan p).2 (applyCallRemovals (unusedCallPlan p).1 p))
+      = (unusedCallPlan p).2.foldl (fun g xq => g.map (remNodeIn xq.1 xq.2))
+          (deepGraphKeepAt (fun c i => keepN (unusedCallPlan p).1 c.name c.isPipe i && κ c.name c.isPipe i)
+            big fuel ti p) := by
+  simp only [unusedCallPlan_eq]
+  have hg := closure_good p (passSeeds p) (closureFuel p * ((passSeeds p).length + 1)) (passSeeds p) []
+    (by intro j hj; simp at hj) (by intro e he; exact Or.inl he)
+  have hok := remInsOK_of_good p (applyCallRemovals (passRem p) p) hs (applyCallRemovals_le _ p hs)
+    (passSeeds p) (passSeeds_ok p hs) _ [] (by simpa using hg)
+  have hok' : RemInsOK (removeInputClosure p (closureFuel p * ((passSeeds p).length + 1)) (passSeeds p) [])
+      (applyCallRemovals (passRem p) p) = true := by simpa [removeInputs] using hok
+  rw [remove_inputs_graph_atK _ ti _ hok' κ big fuel]
+  congr 1
+  unfold deepGraphKeepAt
+  have htop : (applyCallRemovals (passRem p) p).top = p.top := rfl
+  rw [htop]
+  cases ht : p.top with
+  | none => rfl
+  | some t =>
+    simp only []
+    rw [remove_calls_nodesK (passRem p) ti p (passRem_ok p hs) κ big fuel t ht, keepOf_eq_keepN]
+
+
+theorem callsIter_structOK : ∀ (m : Nat) (s : TypeInfo × Program), StructOK s.2 = true →
+    StructOK (callsIter m s).2 = true
+  | 0, _, hs => hs
+  | m + 1, s, hs => callsIter_structOK m (callsPass s) (pass_structOK s.2 hs _ _)
+
+theorem callsIter_ti : ∀ (m : Nat) (s : TypeInfo × Program),
+    (callsIter m s).1 = s.1.removeInputs (loopPairs m s)
+  | 0, _ => rfl
+  | m + 1, s => by
+    show (callsIter m (callsPass s)).1 = _
+    rw [callsIter_ti m (callsPass s)]
+    simp only [loopPairs, TypeInfo.removeInputs, List.foldl_append]
+    rfl
+
+theorem calls_iter_graphK (big fuel : Nat) : ∀ (m : Nat) (s : TypeInfo × Program) (κ : String → Bool → String → Bool),
+    StructOK s.2 = true →
+    deepGraphKeepAt (fun c i => κ c.name c.isPipe i) big fuel (callsIter m s).1 (callsIter m s).2
+      = (loopPairs m s).foldl (fun g xq => g.map (remNodeIn xq.1 xq.2))
+          (deepGraphKeepAt (fun c i => loopKeep m s c.name c.isPipe i && κ c.name c.isPipe i) big fuel s.1 s.2) := by
+  intro m
+  induction m with
+  | zero =>
+    intro s κ _
+    simp only [callsIter, loopPairs, loopKeep, List.foldl_nil, Bool.true_and]
+  | succ m ih =>
+    intro s κ hs
+    show deepGraphKeepAt _ big fuel (callsIter m (callsPass s)).1 (callsIter m (callsPass s)).2 = _
+    rw [ih (callsPass s) κ (pass_structOK s.2 hs _ _)]
+    have hp := calls_pass_graphK s.2 s.1 hs big fuel (fun n b i => loopKeep m (callsPass s) n b i && κ n b i)
+    show List.foldl _ (deepGraphKeepAt _ big fuel (s.1.removeInputs (unusedCallPlan s.2).2)
+      (removeInputs (unusedCallPlan s.2).2 (applyCallRemovals (unusedCallPlan s.2).1 s.2))) _ = _
+    rw [hp]
+    simp only [loopPairs, loopKeep, List.foldl_append, Bool.and_assoc]
+
+theorem deepGraphKeepAt_true (big fuel : Nat) (ti : TypeInfo) (p : Program) :
+    deepGraphKeepAt (fun _ _ => true) big fuel ti p = deepGraphAt big fuel ti p := by
+  unfold deepGraphKeepAt deepGraphAt
+  cases p.top with
+  | none => rfl
+  | some t => exact nodesOfKeep_true ti p big fuel _ _ _ _
+
+/-- `m` calls passes, as one equation about the ORIGINAL graph -/
+theorem calls_iter_graph (big fuel : Nat) (m : Nat) (s : TypeInfo × Program) (hs : StructOK s.2 = true) :
+    deepGraphAt big fuel (callsIter m s).1 (callsIter m s).2
+      = (loopPairs m s).foldl (fun g xq => g.map (remNodeIn xq.1 xq.2))
+          (deepGraphKeepAt (fun c i => loopKeep m s c.name c.isPipe i) big fuel s.1 s.2) := by
+  have := calls_iter_graphK big fuel m s (fun _ _ _ => true) hs
+  simp only [Bool.and_true] at this
+  rw [← this, deepGraphKeepAt_true]
+
+/-- **the remove-unused-calls loop as one equation**: the graph after the loop (type table
+`ti.removeInputs pairs`) is EXACTLY the original graph restricted to the calls every
+pass keeps (`loopKeep`), every remaining node as it is in the original graph, minus the
+cascaded input keys (`loopPairs`); the loop made `m ≤ n` passes, each of which had
+something to delete, and unless the fuel ran out its result has no unused call. -/
+theorem remove_calls_loop_graph_eq (p0 : Program) (big fuel n : Nat) (p : Program) (ti : TypeInfo)
+    (hs : StructOK p = true) :
+    ∃ m, m ≤ n
+      ∧ removeLoop p0 true [] n p = (callsIter m (ti, p)).2
+      ∧ deepGraphAt big fuel (ti.removeInputs (loopPairs m (ti, p))) (removeLoop p0 true [] n p)
+          = (loopPairs m (ti, p)).foldl (fun g xq => g.map (remNodeIn xq.1 xq.2))
+              (deepGraphKeepAt (fun c i => loopKeep m (ti, p) c.name c.isPipe i) big fuel ti p)
+      ∧ (∀ k, k < m → (unusedCallPlan (callsIter k (ti, p)).2).1 ≠ [])
+      ∧ (m < n → (unusedCallPlan (removeLoop p0 true [] n p)).1 = []) := by
+  obtain ⟨m, hmn, heq, hsteps, hfix⟩ := remove_calls_loop_exact p0 big fuel n p ti hs
+  refine ⟨m, hmn, heq, ?_, fun k hk => (hsteps k hk).2.1, fun h => by rw [heq]; exact hfix h⟩
+  rw [heq, ← callsIter_ti m (ti, p)]
+  exact calls_iter_graph big fuel m (ti, p) hs
+
+/-- the kept graph is an ordered sub-list of the full graph: deleting calls deletes
+whole subtrees and permutes / duplicates nothing -/
+theorem nodesOfKeep_sublist (keep : Callable → String → Bool) (ti : TypeInfo) (p : Program) (big : Nat) :
+    ∀ fuel pipe self pre k, (nodesOfKeep keep ti p big fuel pipe self pre k).Sublist
+      (nodesOf ti p big fuel pipe self pre k) := by
+  intro fuel
+  induction fuel with
+  | zero => intro pipe self pre k; simp [nodesOfKeep, nodesOf]
+  | succ fuel ih =>
+    intro pipe self pre k
+    rw [nodesOfKeep, nodesOf]
+    cases hd : p.find? k.decId with
+    | none => simp
+    | some d =>
+      simp only []
+      apply List.Sublist.cons_cons
+      cases hp : d.isPipe with
+      | false => simp
+      | true =>
+        simp only [if_true]
+        generalize d.calls = l
+        induction l with
+        | nil => simp
+        | cons k' rest ihl =>
+          simp only [List.filter_cons]
+          split
+          · simp only [List.flatMap_cons]
+            exact List.Sublist.append (ih d _ _ k') ihl
+          · simp only [List.flatMap_cons]
+            exact List.Sublist.trans ihl (List.sublist_append_right _ _)
+
+theorem deepGraphKeepAt_sublist (keep : Callable → String → Bool) (big fuel : Nat) (ti : TypeInfo) (p : Program) :
+    (deepGraphKeepAt keep big fuel ti p).Sublist (deepGraphAt big fuel ti p) := by
+  unfold deepGraphKeepAt deepGraphAt
+  cases p.top with
+  | none => exact List.Sublist.refl _
+  | some t => exact nodesOfKeep_sublist keep ti p big fuel _ _ _ _
+
 end Proofs.RefactorGraph
